@@ -1142,21 +1142,67 @@ func (w *World) Subst(p P) P { return w.subst(p) }
 
 func (w *World) subst(p P) P { return P(strings.ReplaceAll(string(p), AbsRoot, w.Root)) }
 
-// call runs an API call, converting a panic into a finding.
+// call runs an API call, converting a panic into a finding, and a call that is
+// provably blocked for good (goroutine dump) into a wedge finding; a call that
+// is merely late ends the run without verdict.
 func (w *World) call(what string, f func() error) (err error, panicked bool) {
-	defer func() {
-		if r := recover(); r != nil {
-			if inc, ok := r.(Inconclusive); ok {
-				panic(inc)
+	type res struct {
+		err      error
+		panicVal interface{}
+		stack    []byte
+	}
+	done := make(chan res, 1)
+	gid := make(chan string, 1)
+	go func() {
+		gid <- GoID()
+		var r res
+		defer func() {
+			if p := recover(); p != nil {
+				r.panicVal = p
+				r.stack = make([]byte, 4096)
+				r.stack = r.stack[:runtime.Stack(r.stack, false)]
 			}
-			buf := make([]byte, 4096)
-			buf = buf[:runtime.Stack(buf, false)]
-			w.find(FPanic, "%s panicked: %v\n%s", what, r, buf)
-			panicked = true
-		}
+			done <- r
+		}()
+		r.err = apiCallFrame(f)
 	}()
-	return f(), false
+	marker := "gid:" + <-gid
+	var r res
+	deadline := time.Now().Add(2 * SyncTimeout)
+wait:
+	for {
+		select {
+		case r = <-done:
+			break wait
+		case <-time.After(5 * time.Second):
+		}
+		if proof := BlockedProof(marker); proof != "" {
+			select {
+			case r = <-done:
+				break wait
+			default:
+			}
+			w.find(FWedge, "%s does not return\n%s", what, proof)
+			return nil, true
+		}
+		if time.Now().After(deadline) {
+			inconclusive("%s is late but not provably blocked", what)
+		}
+	}
+	if r.panicVal != nil {
+		if inc, ok := r.panicVal.(Inconclusive); ok {
+			panic(inc)
+		}
+		w.find(FPanic, "%s panicked: %v\n%s", what, r.panicVal, r.stack)
+		return nil, true
+	}
+	return r.err, false
 }
+
+// apiCallFrame marks API calls made by the engine in goroutine dumps.
+//
+//go:noinline
+func apiCallFrame(f func() error) error { return f() }
 
 func resourceErr(err error) bool {
 	return errors.Is(err, unix.ENOSPC) || errors.Is(err, unix.ENOMEM) || errors.Is(err, unix.EMFILE) || errors.Is(err, unix.ENFILE)
